@@ -418,3 +418,6 @@ def run(report, repo):
   from sa.rules import extra5  # pylint: disable=g-import-not-at-top
   report.guard(extra5.executor_abort_callers, report, repo, 'C03-R9')
   report.guard(extra5.profile_stats_is_total, report, repo, 'C03-R10')
+  from sa.rules import extra5 as _e6b  # pylint: disable=g-import-not-at-top
+  report.guard(_e6b.conversion_does_not_sort, report, repo, 'C03-R11')
+  report.guard(_e6b.every_join_is_bounded, report, repo, 'C03-R12')
